@@ -254,7 +254,8 @@ def value(rng, ty):
         return rng.choice((0.0, -1.5, 3.25, 1e20))
     if ty == 'STRING':
         return rng.choice(('', 'x', "it's", 'a b'))
-    return rng.randint(1, 2 ** 127)
+    # an id given explicitly may also be the null id
+    return 0 if rng.random() < 0.15 else rng.randint(1, 2 ** 127)
 
 
 def run(ctx):
